@@ -44,7 +44,7 @@ KINDS = ["in_unit", "in_unit", "in_unit", "eq", "lt", "add"]
 
 
 def strategy(tier):
-    SPEC = synth.world_spec(connected=False)
+    SPEC = synth.world_spec(connected=False, chainy=True, nunits=(3, 6), keep=8)
     MAG = st.sampled_from([{"t": "int", "v": 1}, {"t": "int", "v": 3}, {"t": "float", "v": 2.5}, {"t": "int", "v": -7}])
     KIND = st.sampled_from(KINDS)
 
@@ -58,7 +58,24 @@ def strategy(tier):
         key = synth._choose(draw, sorted(k for k, v in by.items() if len(v) >= 2 and k[1] == 1))
         a = synth._choose(draw, by[key])
         b = synth._choose(draw, by[key])
-        e = draw(st.sampled_from([1, 1, 1, 2, -1]))
+        if draw(convgen.INT10) < 6:
+            # prefer a partner that the declarations link through at least one intermediate
+            # unit (multi-hop routes are where path-finder state matters)
+            fam = next(f for f in spec["fams"] if f["dim"] == key[0])
+            tag = key[0][0].upper()
+            dist = {a: 0}
+            todo = [a]
+            while todo:
+                x = todo.pop(0)
+                for i, j, _p, _f in fam["edges"]:
+                    for u, v in ((f"{tag}{i}", f"{tag}{j}"), (f"{tag}{j}", f"{tag}{i}")):
+                        if u == x and v not in dist:
+                            dist[v] = dist[x] + 1
+                            todo.append(v)
+            far = sorted(n for n, d in dist.items() if d >= 2)
+            if far:
+                b = synth._choose(draw, far)
+        e = draw(st.sampled_from([1, 1, 1, 2, 2, 3, -1, -2]))
         return {"src": [["", a, e]], "dst": [["", b, e]], "mag": draw(MAG)}
 
     @st.composite
@@ -77,8 +94,29 @@ def strategy(tier):
             i = draw(synth._int(0, ndecl - 1))
             steps.insert(draw(synth._int(i + 1, len(steps))), ["redecl", i, draw(st.sampled_from([[7, 1], [1, 2], [3, 1]]))])
         for _ in range(draw(synth._int(0, 8))):
-            q = dict(final) if draw(st.booleans()) else query()
-            steps.insert(draw(synth._int(0, len(steps))), ["query", q])
+            mode = draw(convgen.INT10)
+            if mode < 3:
+                q = dict(final)
+            elif mode < 6:
+                # a relative of the final query: same units at another power, reversed, or
+                # with the other query kind (shares path-finder / planner state with it)
+                q = dict(final)
+                how = draw(st.sampled_from(["power", "power", "reverse", "kind"]))
+                if how == "power":
+                    k = draw(st.sampled_from([2, 3, -1]))
+                    alt = lambda e: e * k if abs(e) == 1 else (1 if e > 0 else -1) * (5 - abs(e) if abs(e) in (2, 3) else 1)
+                    q["src"] = [[p, u, alt(e)] for p, u, e in final["src"]]
+                    q["dst"] = [[p, u, alt(e)] for p, u, e in final["dst"]]
+                elif how == "reverse":
+                    q["src"], q["dst"] = final["dst"], final["src"]
+                else:
+                    q["kind"] = draw(KIND)
+            else:
+                q = query()
+            # relatives of the final query are placed after all declarations half of the
+            # time, so that they succeed and leave planner / path-finder state behind
+            late = mode < 6 and draw(st.booleans())
+            steps.insert(len(steps) if late else draw(synth._int(0, len(steps))), ["query", q])
         return {"world": spec, "steps": steps, "final": final}
 
     return history()
